@@ -179,7 +179,7 @@ def _simd_unit(isa, flag):
     return u, TS
 SIMD = {isa: _simd_unit(isa, fl) for isa, fl in (('sse2', '-msse2'), ('avx2', '-mavx2'))}
 def simd_isas(tier): return ['sse2'] if tier == 'quick' else ['sse2', 'avx2']
-def units(tier): return [(U, '-O1', True)] + [(SIMD[i][0], '-O1', True) for i in simd_isas(tier)] + [(UM, '-O0', False)] + [(u, '-O1', True) for (g, t, ql, u, cases) in _sweep()] + [(_X.UT, '-O1', True), (_X.UX, '-O1', True)] + [(UQ[l][0], '-O1', True) for l in UQ]
+def units(tier): return [(U, '-O1', True)] + [(SIMD[i][0], '-O1', True) for i in simd_isas(tier)] + [(UM, '-O0', False), (UMS, '-O0', False)] + [(u, '-O1', True) for (g, t, ql, u, cases) in _sweep()] + [(_X.UT, '-O1', True), (_X.UX, '-O1', True)] + [(UQ[l][0], '-O1', True) for l in UQ]
 NATIVE = False
 
 def job(names):
@@ -205,7 +205,17 @@ for L in (2, 3, 4):
 for (C, R) in ((2, 2), (2, 3), (3, 3), (4, 3), (3, 4), (4, 4)):
     UM.add('m_makem%d%d' % (C, R), [('float', C * R)], [('float', C * R)], 'glm::mat<%d,%d,float> m = glm::make_mat%dx%d(a); float const* p = glm::value_ptr(m); for (int k = 0; k < %d; ++k) o[k] = p[k];' % (C, R, C, R, C * R))
 UM.add('m_makeq', [('float', 4)], [('float', 4)], 'glm::quat q = glm::make_quat(a); float const* p = glm::value_ptr(q); for (int k = 0; k < 4; ++k) o[k] = p[k];')
-def job_mem(names):
+# the same out-of-bounds-only claim for the SIMD conversion constructors (packed -> aligned and back, every precision pair): their loads/stores have a static size in -O0 IR
+UMS = Unit('c20_mem_sse2', includes=INC, defines=['GLM_FORCE_INTRINSICS'], cflags=['-msse2'])
+for nm_, ct_ in (('f', 'float'), ('i', 'int32_t'), ('u', 'uint32_t'), ('d', 'double')):
+    for L_ in (3, 4):
+        for ps_, pd_ in (('highp', 'highp'), ('mediump', 'mediump'), ('lowp', 'highp'), ('mediump', 'highp'), ('highp', 'lowp')):
+            UMS.add('mc%d%s_%s_%s' % (L_, nm_, ps_, pd_), [(ct_, L_)], [(ct_, L_)] * 2,
+                    'glm::vec<%d,%s,glm::packed_%s> p = ldv<%d,%s,glm::packed_%s>(a); glm::vec<%d,%s,glm::aligned_%s> v(p); stv(o, v); glm::vec<%d,%s,glm::packed_%s> r(v); stv(o2, r);' % (L_, ct_, ps_, L_, ct_, ps_, L_, ct_, pd_, L_, ct_, ps_))
+def job_mem(names, UM_=None):
+    if UM_ is not None: return _job_mem(names, UM_)
+    return _job_mem(names, UM)
+def _job_mem(names, UM):
     def run(S):
         for n in names:
             n_inc = len(S.inconclusive); n_rec = len(S.records)
@@ -263,7 +273,7 @@ def jobs(tier):
     for (g, t, ql, u, cases) in _sweep():
         for k in range(3):
             if cases[k::3]: sw.append(('sweep_%s_%s_%s_%d' % (g, t, ql, k), job_sweep(u, cases[k::3])))
-    return jobs_pure(tier) + jobs_ext(tier) + [('quat_' + l, job_quat(l)) for l in UQ] + sw + [('mem_%d' % k, job_mem(mem[k::4])) for k in range(4)] + [('simd_%s_%d' % (isa, k), job_simd(isa, sorted(SIMD[isa][1])[k::3])) for isa in simd_isas(tier) for k in range(3)]
+    return jobs_pure(tier) + jobs_ext(tier) + [('quat_' + l, job_quat(l)) for l in UQ] + sw + [('mem_%d' % k, job_mem(mem[k::4])) for k in range(4)] + [('memsimd_%d' % k, job_mem(sorted(UMS.fns)[k::4], UMS)) for k in range(4)] + [('simd_%s_%d' % (isa, k), job_simd(isa, sorted(SIMD[isa][1])[k::3])) for isa in simd_isas(tier) for k in range(3)]
 def jobs_pure(tier):
     names = sorted(U.fns)
     if tier == 'quick': names = [n for n in names if not re.search(r'_(i8|u16|i16)$', n) and n not in OPTIONAL]
